@@ -100,7 +100,7 @@ stub_declaratortypes(struct scope *s, struct list *result, char **name, struct s
 	/* 6.7.6.2p1 element type */ \
 	X(!g_binc && g_bkind != TYPEFUNC) \
 	/* innermost derivation: element is the base type */ \
-	X(IMP(CONSTLEN(INNER) && g_bsize != 0, !(g_signed[INNER] && (g_len[INNER] >> 63))))         /* negative length */ \
+	X(IMP(CONSTLEN(INNER) && g_bsize != 0, !(g_signed[INNER] && (g_len[INNER] >> 63)) && g_len[INNER] != 0))         /* 6.7.6.2p1: greater than zero */ \
 	X(IMP(CONSTLEN(INNER) && g_bsize != 0, PROD_OK(am_base.size, am_len[INNER].u.constant.u)))                     /* too large */ \
 	X(IMP(CONSTLEN(INNER) && g_bsize != 0, SZ(INNER) == PROD(am_base.size, am_len[INNER].u.constant.u))) \
 	X(IMP(CONSTLEN(INNER) && g_bsize != 0, !(am_arr[INNER].prop & PROPVM) || (am_base.prop & PROPVM))) \
@@ -110,7 +110,7 @@ stub_declaratortypes(struct scope *s, struct list *result, char **name, struct s
 	/* outer derivation of a[n][m]: its element is the inner array */ \
 	X(IMP(g_n == 2, am_arr[0].base == &am_arr[1] && am_arr[0].align == g_balign)) \
 	X(IMP(g_n == 2, !am_arr[1].incomplete)) \
-	X(IMP(g_n == 2 && CONSTLEN(0) && SZ(1) != 0, !(g_signed[0] && (g_len[0] >> 63)))) \
+	X(IMP(g_n == 2 && CONSTLEN(0) && SZ(1) != 0, !(g_signed[0] && (g_len[0] >> 63)) && g_len[0] != 0)) \
 	X(IMP(g_n == 2 && CONSTLEN(0) && SZ(1) != 0, PROD_OK(SZ(1), am_len[0].u.constant.u) && SZ(0) == PROD(SZ(1), am_len[0].u.constant.u))) \
 	X(IMP(g_n == 2 && (am_arr[1].prop & PROPVM), (am_arr[0].prop & PROPVM) != 0))                 /* VM propagates outwards */ \
 	/* inputs unchanged */ \
